@@ -11,9 +11,9 @@ EXTENDS Threads, Json
 CONSTANTS NThreads, Emitting
 Slots == 1..3
 Programs == <<
-  <<[op |-> "init", slot |-> 1, val |-> 11], [op |-> "init", slot |-> 1, val |-> 12], [op |-> "clear", slot |-> 1, val |-> 0], [op |-> "init", slot |-> 1, val |-> 13]>>,
+  <<[op |-> "init", slot |-> 1, val |-> 11], [op |-> "initialize", slot |-> 1, val |-> 12], [op |-> "clear", slot |-> 1, val |-> 0], [op |-> "init", slot |-> 1, val |-> 13]>>,
   <<[op |-> "init", slot |-> 2, val |-> 21], [op |-> "set", slot |-> 1, val |-> 22], [op |-> "init", slot |-> 1, val |-> 23]>>,
-  <<[op |-> "set", slot |-> 3, val |-> 31], [op |-> "clear", slot |-> 3, val |-> 0], [op |-> "init", slot |-> 3, val |-> 32], [op |-> "init", slot |-> 2, val |-> 33]>>,
+  <<[op |-> "set", slot |-> 3, val |-> 31], [op |-> "clear", slot |-> 3, val |-> 0], [op |-> "initialize", slot |-> 3, val |-> 32], [op |-> "init", slot |-> 2, val |-> 33]>>,
   <<[op |-> "init", slot |-> 1, val |-> 41], [op |-> "codec", slot |-> 1, val |-> 0], [op |-> "init", slot |-> 3, val |-> 42]>>
 >>
 Threads == 1..NThreads
